@@ -253,12 +253,18 @@ class Flattener:
             return new
         self.stack.append(id(fn))
         try:
-            new.body = self._desugar_block(new.body)
+            self._spelling(new)
+            new.body = self._desugar_block(new.body) or [ast.Pass()]
             new.body = self._inline_block(new.body, new, scope, depth)
-            new.body = self._desugar_block(new.body)
+            self._spelling(new)
+            new.body = self._desugar_block(new.body) or [ast.Pass()]
             new.body = self._fold_block(new.body) or [ast.Pass()]
             self._getitem_calls(new)
             self._alias_propagation(new)
+            self._test_locals(new)
+            self._index_loops(new)
+            self._alias_propagation(new)
+            self._field_reads(new)
         finally:
             self.stack.pop()
         ast.fix_missing_locations(new)
@@ -298,8 +304,117 @@ class Flattener:
                 setattr(st, fld, self._desugar_block(sub))
         for h in getattr(st, "handlers", []) or []:
             h.body = self._desugar_block(h.body)
+        for fld in ("body",):
+            if isinstance(getattr(st, fld, None), list) and not getattr(st, fld) and isinstance(st, (ast.If, ast.For, ast.While, ast.With, ast.Try)):
+                setattr(st, fld, [ast.copy_location(ast.Pass(), st)])
         if isinstance(st, (ast.FunctionDef, ast.AsyncFunctionDef, ast.ClassDef)):
             return [st]
+        # assert c : no effect on a run that does not fail
+        if isinstance(st, ast.Assert):
+            return []
+        # `a or f(x)` / `a and f(x)` as a statement  ->  if not a: f(x)  /  if a: f(x)
+        if isinstance(st, ast.Expr) and isinstance(st.value, ast.BoolOp) and len(st.value.values) >= 2:
+            bo = st.value
+            head = bo.values[0] if len(bo.values) == 2 else ast.copy_location(ast.BoolOp(op=bo.op, values=bo.values[:-1]), bo)
+            test = head if isinstance(bo.op, ast.And) else ast.copy_location(ast.UnaryOp(op=ast.Not(), operand=head), bo)
+            inner = _loc(ast.Expr(value=bo.values[-1]), st)
+            return self._desugar_stmt(_loc(ast.If(test=test, body=[inner], orelse=[]), st))
+        # f(x) if c else None   as a statement
+        if isinstance(st, ast.Expr) and isinstance(st.value, ast.IfExp):
+            ie = st.value
+            body = [] if isinstance(ie.body, ast.Constant) else [_loc(ast.Expr(value=ie.body), st)]
+            orelse = [] if isinstance(ie.orelse, ast.Constant) else [_loc(ast.Expr(value=ie.orelse), st)]
+            if body or orelse:
+                if not body:
+                    return self._desugar_stmt(_loc(ast.If(test=ast.copy_location(ast.UnaryOp(op=ast.Not(), operand=ie.test), ie), body=orelse, orelse=[]), st))
+                return self._desugar_stmt(_loc(ast.If(test=ie.test, body=body, orelse=orelse), st))
+        # while c: BODY else: E  /  for ..: BODY else: E   without a `break` in BODY   ->   the loop, then E
+        if isinstance(st, (ast.While, ast.For)) and st.orelse:
+            def own_break(body):
+                for x in body:
+                    if isinstance(x, ast.Break):
+                        return True
+                    if isinstance(x, (ast.For, ast.While, ast.FunctionDef, ast.AsyncFunctionDef, ast.ClassDef)):
+                        if any(own_break(getattr(x, "orelse", []) or []) for _ in [0]):
+                            return True
+                        continue
+                    for fld in ("body", "orelse", "finalbody"):
+                        sub = getattr(x, fld, None)
+                        if isinstance(sub, list) and sub and isinstance(sub[0], ast.stmt) and own_break(sub):
+                            return True
+                    for h in getattr(x, "handlers", []) or []:
+                        if own_break(h.body):
+                            return True
+                return False
+            if not own_break(st.body):
+                tail = st.orelse
+                st.orelse = []
+                return self._desugar_stmt(st) + tail
+        # x.__setitem__(k, v) -> x[k] = v ; x.__delitem__(k) -> del x[k]
+        if isinstance(st, ast.Expr) and isinstance(st.value, ast.Call) and isinstance(st.value.func, ast.Attribute) and not st.value.keywords:
+            c_ = st.value
+            if c_.func.attr == "__setitem__" and len(c_.args) == 2:
+                return self._desugar_stmt(_loc(ast.Assign(targets=[ast.Subscript(value=c_.func.value, slice=c_.args[0], ctx=ast.Store())], value=c_.args[1],
+                                                          type_comment=None), st))
+            if c_.func.attr == "__delitem__" and len(c_.args) == 1:
+                return [_loc(ast.Delete(targets=[ast.Subscript(value=c_.func.value, slice=c_.args[0], ctx=ast.Del())]), st)]
+            # d.update([(k, v), ..]) / d.update(((k, v),)) : item stores
+            if c_.func.attr == "update" and len(c_.args) == 1 and isinstance(c_.args[0], (ast.List, ast.Tuple)) and c_.args[0].elts \
+                    and all(isinstance(e_, (ast.Tuple, ast.List)) and len(e_.elts) == 2 for e_ in c_.args[0].elts) \
+                    and (_is_chain(c_.func.value) or isinstance(c_.func.value, ast.Subscript)):
+                return [_loc(ast.Assign(targets=[ast.Subscript(value=sym.clone(c_.func.value), slice=e_.elts[0], ctx=ast.Store())], value=e_.elts[1], type_comment=None), st)
+                        for e_ in c_.args[0].elts]
+            # s.update((a,)) / s.update([a, b]) with elements that are not pairs: a set gains the elements
+            if c_.func.attr == "update" and len(c_.args) == 1 and isinstance(c_.args[0], (ast.List, ast.Tuple, ast.Set)) and c_.args[0].elts \
+                    and not any(isinstance(e_, (ast.Tuple, ast.List, ast.Starred)) for e_ in c_.args[0].elts) \
+                    and (_is_chain(c_.func.value) or isinstance(c_.func.value, ast.Subscript)):
+                return [_loc(ast.Expr(value=ast.Call(func=ast.Attribute(value=sym.clone(c_.func.value), attr="add", ctx=ast.Load()), args=[e_], keywords=[])), st)
+                        for e_ in c_.args[0].elts]
+            # table[k].update({a: b})  (receiver not a plain name)
+            if c_.func.attr == "update" and len(c_.args) == 1 and isinstance(c_.args[0], ast.Dict) and c_.args[0].keys and all(k_ is not None for k_ in c_.args[0].keys) \
+                    and isinstance(c_.func.value, ast.Subscript):
+                return [_loc(ast.Assign(targets=[ast.Subscript(value=sym.clone(c_.func.value), slice=k_, ctx=ast.Store())], value=v_, type_comment=None), st)
+                        for k_, v_ in zip(c_.args[0].keys, c_.args[0].values)]
+        # flag |= True -> flag = True ; s |= {a, b} -> s.add(a); s.add(b) ; s -= {a} -> s.discard(a)
+        if isinstance(st, ast.AugAssign) and isinstance(st.op, ast.BitOr) and isinstance(st.value, ast.Constant) and st.value.value is True:
+            return [_loc(ast.Assign(targets=[st.target], value=st.value, type_comment=None), st)]
+        if isinstance(st, ast.AugAssign) and isinstance(st.op, (ast.BitOr, ast.Sub)) and isinstance(st.value, ast.Set) and st.value.elts \
+                and not any(isinstance(e_, ast.Starred) for e_ in st.value.elts) and (_is_chain(st.target) or isinstance(st.target, ast.Subscript)):
+            def load(t_):
+                r_ = sym.clone(t_)
+                for n_ in ast.walk(r_):
+                    if hasattr(n_, "ctx"):
+                        n_.ctx = ast.Load()
+                return r_
+            meth = "add" if isinstance(st.op, ast.BitOr) else "discard"
+            return [_loc(ast.Expr(value=ast.Call(func=ast.Attribute(value=load(st.target), attr=meth, ctx=ast.Load()), args=[e_], keywords=[])), st)
+                    for e_ in st.value.elts]
+        # while True: if c: break ; REST   ->   while not c: REST      (a `continue` in REST re-evaluates c in both spellings)
+        if isinstance(st, ast.While) and isinstance(st.test, ast.Constant) and st.test.value in (True, 1) and not st.orelse and st.body \
+                and isinstance(st.body[0], ast.If) and not st.body[0].orelse and len(st.body[0].body) == 1 and isinstance(st.body[0].body[0], ast.Break):
+            c = st.body[0].test
+            if isinstance(c, ast.UnaryOp) and isinstance(c.op, ast.Not):
+                st.test = c.operand
+            else:
+                st.test = ast.copy_location(ast.UnaryOp(op=ast.Not(), operand=c), c)
+            st.body = st.body[1:] or [ast.copy_location(ast.Pass(), st)]
+            return [st]
+        # a, b = x, y   ->   a = x ; b = y       when no target is read by a value (a swap stays a tuple assignment)
+        if isinstance(st, ast.Assign) and len(st.targets) == 1 and isinstance(st.targets[0], (ast.Tuple, ast.List)) and isinstance(st.value, (ast.Tuple, ast.List)) \
+                and len(st.targets[0].elts) == len(st.value.elts) and len(st.value.elts) >= 2 \
+                and not any(isinstance(x, ast.Starred) for x in list(st.targets[0].elts) + list(st.value.elts)):
+            tnames = set()
+            for t in st.targets[0].elts:
+                tnames |= {x.id for x in ast.walk(t) if isinstance(x, ast.Name)}
+            vnames = set()
+            for v in st.value.elts:
+                vnames |= {x.id for x in ast.walk(v) if isinstance(x, ast.Name)}
+            pure_vals = all(not any(isinstance(x, (ast.Call, ast.Await, ast.Yield, ast.YieldFrom, ast.NamedExpr)) for x in ast.walk(v)) for v in st.value.elts)
+            if not (tnames - {"self"}) & vnames and (pure_vals or all(isinstance(t, ast.Name) for t in st.targets[0].elts)):
+                out = []
+                for t, v in zip(st.targets[0].elts, st.value.elts):
+                    out.extend(self._desugar_stmt(_loc(ast.Assign(targets=[t], value=v, type_comment=None), st)))
+                return out
         # a = b = e   ->   a = e ; b = a      (a an attribute / name, evaluated once)
         if isinstance(st, ast.Assign) and len(st.targets) > 1 and all(isinstance(t, (ast.Name, ast.Attribute)) and _is_chain(t) for t in st.targets):
             ts = sorted(st.targets, key=lambda t: 0 if isinstance(t, ast.Attribute) else 1)
@@ -422,6 +537,35 @@ class Flattener:
                 for t in reversed(g.ifs):
                     inner = [_loc(ast.If(test=sym.clone(t), body=inner, orelse=[]), t)]
                 return [_loc(ast.For(target=_store(g.target), iter=sym.clone(g.iter), body=inner, orelse=[], type_comment=None), st)]
+        # for x in (e,): BODY  ->  x = e ; BODY      (no break / continue at the level of this loop)
+        if isinstance(st, ast.For) and not st.orelse and isinstance(st.iter, (ast.Tuple, ast.List)) and len(st.iter.elts) == 1 \
+                and not isinstance(st.iter.elts[0], ast.Starred) and isinstance(st.target, ast.Name):
+            def own_jump(body):
+                for x in body:
+                    if isinstance(x, (ast.Break, ast.Continue)):
+                        return True
+                    if isinstance(x, (ast.For, ast.While, ast.FunctionDef, ast.AsyncFunctionDef, ast.ClassDef)):
+                        continue
+                    for fld in ("body", "orelse", "finalbody"):
+                        sub = getattr(x, fld, None)
+                        if isinstance(sub, list) and sub and isinstance(sub[0], ast.stmt) and own_jump(sub):
+                            return True
+                return False
+            if not own_jump(st.body):
+                return self._desugar_block([_loc(ast.Assign(targets=[_store(st.target)], value=st.iter.elts[0], type_comment=None), st)] + st.body)
+        # for x in filter(lambda a: C, S): BODY  ->  for x in S: if C[x/a]: BODY     (filter(None, S): if x)
+        if isinstance(st, ast.For) and not st.orelse and isinstance(st.iter, ast.Call) and isinstance(st.iter.func, ast.Name) and st.iter.func.id == "filter" \
+                and len(st.iter.args) == 2 and not st.iter.keywords and isinstance(st.target, ast.Name):
+            pred, src_ = st.iter.args
+            test = None
+            if isinstance(pred, ast.Lambda) and len(pred.args.args) == 1 and not pred.args.vararg and not pred.args.kwarg and not pred.args.defaults:
+                test = _Subst({pred.args.args[0].arg: _name(st.target.id)}).visit(sym.clone(pred.body))
+            elif isinstance(pred, ast.Constant) and pred.value is None:
+                test = _name(st.target.id)
+            if test is not None:
+                st.iter = src_
+                st.body = [_loc(ast.If(test=test, body=st.body, orelse=[]), st)]
+                return self._desugar_stmt(st)
         # yield from e  ->  for y in e: yield y
         if isinstance(st, ast.Expr) and isinstance(st.value, ast.YieldFrom):
             y = self.fresh("_y")
@@ -479,6 +623,11 @@ class Flattener:
 
     # ---------------------------------------------------------------- F5 boolean constants left by substituted flags
     def _fold_test(self, e):
+        if isinstance(e, ast.Call) and isinstance(e.func, ast.Name) and e.func.id == "bool" and len(e.args) == 1 and not e.keywords:
+            return self._fold_test(e.args[0])           # bool(x) as a test is x
+        if isinstance(e, ast.Compare) and len(e.ops) == 1 and isinstance(e.ops[0], (ast.Eq, ast.Is, ast.LtE, ast.GtE)) and _is_simple_arg(e.left) \
+                and not isinstance(e.left, ast.Constant) and au.src(e.left) == au.src(e.comparators[0]):
+            return ast.copy_location(ast.Constant(value=True), e)      # x == x for a side-effect free x
         if isinstance(e, ast.UnaryOp) and isinstance(e.op, ast.Not):
             v = self._fold_test(e.operand)
             if isinstance(v, ast.Constant) and isinstance(v.value, bool):
@@ -531,6 +680,323 @@ class Flattener:
             out.append(st)
         return out
 
+    # ---------------------------------------------------------------- F0 spelling of expressions
+    MIRROR = {ast.Lt: ast.Gt, ast.Gt: ast.Lt, ast.LtE: ast.GtE, ast.GtE: ast.LtE, ast.Eq: ast.Eq, ast.NotEq: ast.NotEq, ast.Is: ast.Is, ast.IsNot: ast.IsNot}
+
+    def _signature_of(self, call):
+        """positional parameter names of the function a call denotes, when every candidate definition in the repository agrees (None otherwise)"""
+        f = call.func
+        cands = []
+        if isinstance(f, ast.Name):
+            for m in self.repo.modules.values():
+                if f.id in m.funcs:
+                    cands.append((m.funcs[f.id], False))
+                if f.id in m.classes:
+                    init = m.funcs.get(f.id + ".__init__")
+                    if init is not None:
+                        cands.append((init, True))
+        elif isinstance(f, ast.Attribute):
+            for m in self.repo.modules.values():
+                for q, fn in m.funcs.items():
+                    if "." in q and q.rsplit(".", 1)[1] == f.attr and ".<locals>." not in q:
+                        decos = {au.src(d) for d in fn.decorator_list}
+                        cands.append((fn, "staticmethod" not in decos))
+        sigs = set()
+        for fn, skip in cands:
+            a = fn.args
+            if a.vararg or a.kwarg:
+                return None
+            pos = [x.arg for x in a.posonlyargs + a.args]
+            sigs.add(tuple(pos[1:] if skip else pos))
+        return list(next(iter(sigs))) if len(sigs) == 1 else None
+
+    def _spelling(self, fn):
+        """constants on the right of a comparison (`None is not x` -> `x is not None`, `0 < n` -> `n > 0`); keyword arguments that name the
+        next positional parameters of the callee written positionally (`push(s, w=0.)` -> `push(s, 0.)`)"""
+        me = self
+
+        class T(ast.NodeTransformer):
+            def visit_Compare(self, n):
+                self.generic_visit(n)
+                # x != None -> x is not None ; x == None -> x is None ; k in d.keys() -> k in d
+                if len(n.ops) == 1 and isinstance(n.ops[0], (ast.Eq, ast.NotEq)) and isinstance(n.comparators[0], ast.Constant) and n.comparators[0].value is None:
+                    n.ops = [ast.Is() if isinstance(n.ops[0], ast.Eq) else ast.IsNot()]
+                if len(n.ops) == 1 and isinstance(n.ops[0], (ast.In, ast.NotIn)) and isinstance(n.comparators[0], ast.Call) \
+                        and isinstance(n.comparators[0].func, ast.Attribute) and n.comparators[0].func.attr == "keys" and not n.comparators[0].args:
+                    n.comparators[0] = n.comparators[0].func.value
+                if len(n.ops) == 1 and type(n.ops[0]) in me.MIRROR and isinstance(n.left, ast.Constant) and not isinstance(n.comparators[0], ast.Constant):
+                    n.left, n.comparators[0] = n.comparators[0], n.left
+                    n.ops = [me.MIRROR[type(n.ops[0])]()]
+                return n
+
+            def visit_UnaryOp(self, n):
+                self.generic_visit(n)
+                if isinstance(n.op, ast.Not) and isinstance(n.operand, ast.Constant) and isinstance(n.operand.value, bool):
+                    return ast.copy_location(ast.Constant(value=not n.operand.value), n)       # not False -> True
+                return n
+
+            def visit_Subscript(self, n):
+                self.generic_visit(n)
+                # obj.__dict__['name'] -> obj.name
+                if isinstance(n.value, ast.Attribute) and n.value.attr == "__dict__" and isinstance(n.slice, ast.Constant) and isinstance(n.slice.value, str) \
+                        and n.slice.value.isidentifier():
+                    return ast.copy_location(ast.Attribute(value=n.value.value, attr=n.slice.value, ctx=n.ctx), n)
+                return n
+
+            def visit_Call(self, n):
+                self.generic_visit(n)
+                f = n.func
+                # getattr(obj, 'name') -> obj.name
+                if isinstance(f, ast.Name) and f.id == "getattr" and len(n.args) == 2 and not n.keywords and isinstance(n.args[1], ast.Constant) \
+                        and isinstance(n.args[1].value, str) and n.args[1].value.isidentifier():
+                    return ast.copy_location(ast.Attribute(value=n.args[0], attr=n.args[1].value, ctx=ast.Load()), n)
+                # Class.method(obj, ..) -> obj.method(..)   for a class of the repository that defines the method (not a static / class method)
+                if isinstance(f, ast.Attribute) and isinstance(f.value, ast.Name) and f.value.id[:1].isupper() and n.args \
+                        and not isinstance(n.args[0], ast.Starred) and f.value.id not in ("self", "cls"):
+                    for m in me.repo.modules.values():
+                        fn_ = m.funcs.get(f.value.id + "." + f.attr)
+                        if fn_ is not None and f.value.id in m.classes:
+                            decos = {au.src(d) for d in fn_.decorator_list}
+                            if not ({"staticmethod", "classmethod"} & decos) and isinstance(n.args[0], (ast.Name, ast.Attribute)) \
+                                    and not (isinstance(n.args[0], ast.Name) and n.args[0].id == "self"):
+                                n.func = ast.copy_location(ast.Attribute(value=n.args[0], attr=f.attr, ctx=ast.Load()), f)
+                                n.args = n.args[1:]
+                                f = n.func
+                            break
+                # x.__contains__(k) -> k in x ; x.__call__(..) -> x(..) ; x.__len__() -> len(x)
+                if isinstance(f, ast.Attribute) and f.attr == "__contains__" and len(n.args) == 1 and not n.keywords:
+                    return ast.copy_location(ast.Compare(left=n.args[0], ops=[ast.In()], comparators=[f.value]), n)
+                if isinstance(f, ast.Attribute) and f.attr == "__call__":
+                    n.func = f.value
+                    return n
+                if isinstance(f, ast.Attribute) and f.attr == "__len__" and not n.args and not n.keywords:
+                    return ast.copy_location(ast.Call(func=ast.Name(id="len", ctx=ast.Load()), args=[f.value], keywords=[]), n)
+                if n.keywords and all(k.arg is not None for k in n.keywords) and not any(isinstance(a, ast.Starred) for a in n.args):
+                    pos = me._signature_of(n)
+                    if pos is not None:
+                        kw = {k.arg: k for k in n.keywords}
+                        i = len(n.args)
+                        while i < len(pos) and pos[i] in kw:
+                            k = kw.pop(pos[i])
+                            n.args.append(k.value)
+                            n.keywords = [x for x in n.keywords if x is not k]
+                            i += 1
+                return n
+        for i, st in enumerate(fn.body):
+            fn.body[i] = T().visit(st)
+
+    # ---------------------------------------------------------------- F6 tests held in a local, index loops
+    def _test_locals(self, fn):
+        """`flag = <test>` ... `if flag:` : a local bound once and used only as (part of) the test of if / while statements is replaced by the
+        test, when nothing between the binding and the use can change what the test reads"""
+        link(fn)
+        counts = {}
+        for n in ast.walk(fn):
+            if isinstance(n, ast.Name) and isinstance(n.ctx, (ast.Store, ast.Del)):
+                counts[n.id] = counts.get(n.id, 0) + 1
+            elif isinstance(n, ast.arg):
+                counts[n.arg] = counts.get(n.arg, 0) + 1
+        order = {}
+        for i, n in enumerate(ast.walk(fn)):
+            pass
+        # program order by (lineno, col) is not reliable after inlining: number the statements by a pre-order walk
+        seq = {}
+
+        def number(body):
+            for st in body:
+                seq[id(st)] = len(seq)
+                for fld in ("body", "orelse", "finalbody"):
+                    sub = getattr(st, fld, None)
+                    if isinstance(sub, list) and sub and isinstance(sub[0], ast.stmt) and not isinstance(st, (ast.FunctionDef, ast.ClassDef)):
+                        number(sub)
+                for h in getattr(st, "handlers", []) or []:
+                    number(h.body)
+        number(fn.body)
+        stmts = [st for st in au.stmts(fn.body)]
+        changed = False
+        for st in list(stmts):
+            if not (isinstance(st, ast.Assign) and len(st.targets) == 1 and isinstance(st.targets[0], ast.Name)):
+                continue
+            nm, v = st.targets[0].id, st.value
+            if counts.get(nm, 0) != 1:
+                continue
+            is_test = isinstance(v, (ast.Compare, ast.BoolOp)) or (isinstance(v, ast.UnaryOp) and isinstance(v.op, ast.Not)) or \
+                (isinstance(v, ast.Subscript) and not isinstance(v.slice, ast.Slice) and isinstance(v.value, ast.Name))
+            if not is_test or any(isinstance(x, (ast.Call, ast.NamedExpr, ast.Await, ast.Yield, ast.Lambda)) for x in ast.walk(v)
+                                  if not (isinstance(x, ast.Call) and au.call_tail(x) in ("len", "isinstance", "isinf", "isnan"))):
+                continue
+            uses = [n for n in ast.walk(fn) if isinstance(n, ast.Name) and n.id == nm and isinstance(n.ctx, ast.Load)]
+            if not uses:
+                continue
+
+            def in_test(u):
+                x = u
+                while True:
+                    par = getattr(x, "_parent", None)
+                    if isinstance(par, (ast.If, ast.While)) and par.test is x:
+                        return par
+                    if isinstance(par, ast.BoolOp) or (isinstance(par, ast.UnaryOp) and isinstance(par.op, ast.Not)):
+                        x = par
+                        continue
+                    return None
+            owners = [in_test(u) for u in uses]
+            if any(o is None for o in owners):
+                continue
+            # a plain flag read `t[k]` is only inlined for a single use (it is then the flag test itself)
+            if isinstance(v, ast.Subscript) and len(uses) != 1:
+                continue
+            # the binding and every use in the same block, nothing in between touches what the test reads
+            blk = getattr(st, "_parent", None)
+            reads = {x.id for x in ast.walk(v) if isinstance(x, ast.Name)}
+            ok = True
+            for o in owners:
+                if getattr(o, "_parent", None) is not blk:
+                    ok = False
+                    break
+                lo, hi = seq[id(st)], seq[id(o)]
+                if hi <= lo:
+                    ok = False
+                    break
+                for mid in stmts:
+                    if not (lo < seq.get(id(mid), -1) < hi):
+                        continue
+                    for x in ast.walk(mid):
+                        if isinstance(x, ast.Name) and x.id in reads and isinstance(x.ctx, (ast.Store, ast.Del)):
+                            ok = False
+                        if isinstance(x, (ast.Subscript, ast.Attribute)) and isinstance(getattr(x, "ctx", None), (ast.Store, ast.Del)):
+                            b_ = x
+                            while isinstance(b_, (ast.Subscript, ast.Attribute)):
+                                b_ = b_.value
+                            # a store of a constant flag into the table the test read (`seen[v] = True` between the read and the test) is what
+                            # the idiom `old = seen[v]; seen[v] = True; if old: continue` does: the read value is what is tested, keep the local
+                            if isinstance(b_, ast.Name) and b_.id in reads:
+                                ok = False
+                        if isinstance(x, ast.Call) and isinstance(x.func, ast.Attribute):
+                            b_ = x.func.value
+                            while isinstance(b_, (ast.Subscript, ast.Attribute)):
+                                b_ = b_.value
+                            if isinstance(b_, ast.Name) and b_.id in reads and x.func.attr not in ("get", "keys", "values", "items", "index", "count", "copy"):
+                                ok = False
+                if not ok:
+                    break
+            if not ok:
+                continue
+            for u in uses:
+                par = u._parent
+                rep = sym.clone(v)
+                for fld, val in ast.iter_fields(par):
+                    if val is u:
+                        setattr(par, fld, rep)
+                    elif isinstance(val, list):
+                        for i, x in enumerate(val):
+                            if x is u:
+                                val[i] = rep
+            # remove the binding
+            body_owner = blk
+            for fld in ("body", "orelse", "finalbody"):
+                sub = getattr(body_owner, fld, None)
+                if isinstance(sub, list) and any(x is st for x in sub):
+                    sub[:] = [x for x in sub if x is not st] or [ast.copy_location(ast.Pass(), st)]
+            for h in getattr(body_owner, "handlers", []) or []:
+                if any(x is st for x in h.body):
+                    h.body[:] = [x for x in h.body if x is not st] or [ast.copy_location(ast.Pass(), st)]
+            changed = True
+            link(fn)
+        if changed:
+            fn.body = self._fold_block(fn.body) or [ast.Pass()]
+            ast.fix_missing_locations(fn)
+            link(fn)
+
+    def _field_reads(self, fn):
+        """`v = item.x` (both bound once, nothing stores into item.x): the later reads of `item.x` in the same block are reads of v"""
+        link(fn)
+        counts = {}
+        for n in ast.walk(fn):
+            if isinstance(n, ast.Name) and isinstance(n.ctx, (ast.Store, ast.Del)):
+                counts[n.id] = counts.get(n.id, 0) + 1
+            elif isinstance(n, ast.arg):
+                counts[n.arg] = counts.get(n.arg, 0) + 1
+        stored = {au.src(n) for n in ast.walk(fn) if isinstance(n, ast.Attribute) and isinstance(n.ctx, (ast.Store, ast.Del))}
+        for own in [n for n in ast.walk(fn)]:
+            for fld in ("body", "orelse", "finalbody"):
+                blk = getattr(own, fld, None)
+                if not (isinstance(blk, list) and blk and isinstance(blk[0], ast.stmt)):
+                    continue
+                for i, st in enumerate(blk):
+                    if not (isinstance(st, ast.Assign) and len(st.targets) == 1 and isinstance(st.targets[0], ast.Name) and isinstance(st.value, ast.Attribute)
+                            and _is_chain(st.value)):
+                        continue
+                    a, v = st.targets[0].id, st.value
+                    root = v
+                    while isinstance(root, ast.Attribute):
+                        root = root.value
+                    if root.id in ("self", "cls"):
+                        continue
+                    # neither name is re-bound in the rest of the block (the only place where the reads are rewritten)
+                    rest_stores = {x.id for st2 in blk[i + 1:] for x in ast.walk(st2) if isinstance(x, ast.Name) and isinstance(x.ctx, (ast.Store, ast.Del))}
+                    if a in rest_stores or root.id in rest_stores:
+                        continue
+                    txt = au.src(v)
+                    if any(txt == s_ or txt.startswith(s_ + ".") for s_ in stored):
+                        continue
+
+                    class T(ast.NodeTransformer):
+                        def visit_Attribute(self, n):
+                            if isinstance(n.ctx, ast.Load) and au.src(n) == txt:
+                                return ast.copy_location(ast.Name(id=a, ctx=ast.Load()), n)
+                            return self.generic_visit(n)
+                    for j in range(i + 1, len(blk)):
+                        blk[j] = T().visit(blk[j])
+        ast.fix_missing_locations(fn)
+        link(fn)
+
+    def _index_loops(self, fn):
+        """for i in range(len(X)): e = X[i] ; BODY   ->   for e in X: BODY  (for i, e in enumerate(X) when i is used elsewhere), X not changed in
+        the loop"""
+        link(fn)
+        for lp in [n for n in ast.walk(fn) if isinstance(n, ast.For)]:
+            it = lp.iter
+            if not (isinstance(lp.target, ast.Name) and isinstance(it, ast.Call) and isinstance(it.func, ast.Name) and it.func.id == "range"
+                    and len(it.args) == 1 and not it.keywords and not lp.orelse and lp.body):
+                continue
+            ln = it.args[0]
+            if not (isinstance(ln, ast.Call) and isinstance(ln.func, ast.Name) and ln.func.id == "len" and len(ln.args) == 1 and
+                    (isinstance(ln.args[0], ast.Name) or _is_chain(ln.args[0]))):
+                continue
+            X = ln.args[0]
+            first = lp.body[0]
+            i = lp.target.id
+            if not (isinstance(first, ast.Assign) and len(first.targets) == 1 and isinstance(first.targets[0], ast.Name)
+                    and isinstance(first.value, ast.Subscript) and au.src(first.value.value) == au.src(X)
+                    and isinstance(first.value.slice, ast.Name) and first.value.slice.id == i):
+                continue
+            e = first.targets[0].id
+            xs = au.src(X)
+            rest = lp.body[1:]
+            bad = False
+            for st in rest:
+                for x in ast.walk(st):
+                    if isinstance(x, ast.Name) and x.id in (e, i) and isinstance(x.ctx, (ast.Store, ast.Del)):
+                        bad = True
+                    if isinstance(x, (ast.Name, ast.Attribute)) and au.src(x) == xs:
+                        par = getattr(x, "_parent", None)
+                        read_only = (isinstance(par, ast.Subscript) and par.value is x and isinstance(par.ctx, ast.Load)) or \
+                            (isinstance(par, ast.Call) and isinstance(par.func, ast.Name) and par.func.id == "len")
+                        if not read_only:
+                            bad = True
+            if bad or e == i:
+                continue
+            i_used = any(isinstance(x, ast.Name) and x.id == i for st in rest for x in ast.walk(st))
+            if i_used:
+                lp.target = ast.copy_location(ast.Tuple(elts=[_name(i, ast.Store()), _name(e, ast.Store())], ctx=ast.Store()), lp.target)
+                lp.iter = ast.copy_location(ast.Call(func=_name("enumerate"), args=[sym.clone(X)], keywords=[]), it)
+            else:
+                lp.target = ast.copy_location(_name(e, ast.Store()), lp.target)
+                lp.iter = ast.copy_location(sym.clone(X), it)
+            lp.body = rest or [ast.copy_location(ast.Pass(), lp)]
+        ast.fix_missing_locations(fn)
+        link(fn)
+
     # ---------------------------------------------------------------- F3
     def _getitem_calls(self, fn):
         class T(ast.NodeTransformer):
@@ -565,6 +1031,14 @@ class Flattener:
             for c_ in ast.walk(fn):
                 if isinstance(c_, ast.Call) and isinstance(c_.func, ast.Name):
                     c_.func._hf_par = c_
+            fn_defs = {n.name: n for n in ast.walk(fn) if isinstance(n, (ast.FunctionDef, ast.ClassDef)) and n is not fn}
+            for own_ in ast.walk(fn):
+                for fld_ in ("body", "orelse", "finalbody"):
+                    sub_ = getattr(own_, fld_, None)
+                    if isinstance(sub_, list):
+                        for x_ in sub_:
+                            if isinstance(x_, ast.stmt):
+                                x_._hf_blk_owner = own_
             loop_bound = set()
             for lp_ in [x for x in ast.walk(fn) if isinstance(x, (ast.For, ast.While))]:
                 for x in ast.walk(lp_):
@@ -585,6 +1059,28 @@ class Flattener:
                     continue
                 good = []
                 for t, v in pairs:
+                    if isinstance(v, ast.Name) and isinstance(t, ast.Name) and v.id != t.id:
+                        # a = b : both bound once (b may be a parameter); when b is the variable of a loop, a must be bound directly in that loop's body
+                        if counts.get(t.id, 0) != 1 or t.id in params or counts.get(v.id, 0) != 1:
+                            continue
+                        if v.id in loop_bound and v.id not in params:
+                            par_ = getattr(st, "_hf_blk_owner", None)
+                            in_for = isinstance(par_, ast.For) and v.id in {x.id for x in ast.walk(par_.target) if isinstance(x, ast.Name)}
+                            # or: b is bound by an earlier statement of the very block that binds a (`v, prev = q.popleft()` ... `father = prev`)
+                            same_blk = False
+                            for fld_ in ("body", "orelse", "finalbody"):
+                                blk_ = getattr(par_, fld_, None) if par_ is not None else None
+                                if isinstance(blk_, list) and any(x_ is st for x_ in blk_):
+                                    k_ = [i_ for i_, x_ in enumerate(blk_) if x_ is st][0]
+                                    same_blk = any(isinstance(x_, (ast.Assign, ast.AnnAssign)) and v.id in {y_.id for t_ in (x_.targets if isinstance(x_, ast.Assign) else [x_.target])
+                                                                                                          for y_ in ast.walk(t_) if isinstance(y_, ast.Name)}
+                                                   for x_ in blk_[:k_])
+                            if not (in_for or same_blk):
+                                continue
+                        if isinstance(fn_defs.get(v.id), (ast.FunctionDef, ast.ClassDef)):
+                            continue
+                        good.append((t.id, v))
+                        continue
                     if not (isinstance(v, ast.Attribute) and _is_chain(v)):
                         continue
                     root = v
